@@ -16,7 +16,7 @@ import (
 func init() { props["C14"] = runC14 }
 
 func runC14(res *Result, d *Driver, tier string, seed uint64) {
-	res.Rule = "part A: real container; a previous program plants objects at the requested paths (symlink to a host-visible file, dangling symlink, FIFO, directory, socket, unreadable file) and the host then issues Open batches of length 0..L with random per-item fate (existing regular file, new file, MkdirAll, planted object, unwritable directory) and random access modes: results must be index-aligned, a File only for a regular or new file whose (dev,ino) equals the host's view of that path under /proc/<init>/root and whose access mode is the requested one, never a block on a FIFO; Symlink and Delete likewise; length-0 batches followed by checked operations; a 250-item batch repeated 400 (2500 thorough) times on one environment with every descriptor checked by inode; " +
+	res.Rule = "part A: real container; a previous program plants objects at the requested paths (symlink to a host-visible file, dangling symlink, FIFO, directory, socket, unreadable file) and the host then issues Open batches of length 0..L with random per-item fate (existing regular file, new file, MkdirAll, planted object, unwritable directory) and random access modes: results must be index-aligned, a File only for a regular or new file whose (dev,ino) equals the host's view of that path under /proc/<init>/root and whose access mode is the requested one, never a block on a FIFO; Symlink and Delete likewise; length-0 batches followed by checked operations; a 250-item batch repeated 2000 (20000 thorough) times on one environment with every descriptor checked by inode; " +
 		"part B: the host side over a socketpair with a scripted (dishonest) container peer: replies with a wrong batch length or fewer descriptors than successes must yield an error and leave the process' descriptor count unchanged; the same requests are fed to the model (driver) for the honest case. non-trivial = batch with at least one failing and one succeeding item / dishonest reply; distinct = batches."
 	rng := NewRng(seed, "C14", 1)
 	before := childPids()
@@ -235,9 +235,9 @@ func runC14(res *Result, d *Driver, tier string, seed uint64) {
 				cmds = append(cmds, container.OpenCmd{Path: fmt.Sprintf("/w/absent%d", i), Flag: os.O_RDONLY})
 			}
 		}
-		rounds := 400
+		rounds := 2000
 		if tier == "thorough" {
-			rounds = 2500
+			rounds = 20000
 		}
 		for rd := 0; rd < rounds; rd++ {
 			rs, err := env.Open(cmds)
